@@ -63,9 +63,24 @@ def _worker(args):
     return verify_function(*args)
 
 
-def run(qualnames, jobs=16, timeout_ms=10000, want_smt2=False):
-    with mp.Pool(min(jobs, max(1, len(qualnames)))) as pool:
-        return pool.map(_worker, [(q, timeout_ms, want_smt2) for q in qualnames], chunksize=1)
+def run(qualnames, jobs=16, timeout_ms=10000, want_smt2=False, function_deadline_s=None):
+    """One worker process per function. A worker that exceeds the per-function deadline (z3 does not always
+    honour its own timeout) is killed and the function is reported undecided (status 'timeout')."""
+    if function_deadline_s is None:
+        function_deadline_s = max(240, 40 * timeout_ms / 1000)
+    out = []
+    with mp.Pool(min(jobs, max(1, len(qualnames))), maxtasksperchild=1) as pool:
+        handles = [(q, pool.apply_async(_worker, ((q, timeout_ms, want_smt2),))) for q in qualnames]
+        t0 = time.time()
+        for q, h in handles:
+            left = max(1.0, function_deadline_s - (time.time() - t0))
+            try:
+                out.append(h.get(timeout=left))
+            except mp.TimeoutError:
+                out.append({"function": q, "status": "out_of_subset", "reason": f"verification of this function exceeded the {function_deadline_s}s deadline (solver did not return)",
+                            "obligations": [], "seconds": function_deadline_s})
+        pool.terminate()
+    return out
 
 
 def main():
